@@ -109,6 +109,8 @@ impl Prop for C02 {
         vec![
             GenSpec::enumerated("sweep", sweep_count()),
             GenSpec::enumerated("limits", N_LIMITS),
+            // one long, mostly non-ASCII string (4 KiB..64 KiB) in each string-valued field
+            GenSpec::random("long-strings", tier.pick(160, 4_000)),
             GenSpec::enumerated("repo-files", REPO_GDS.len() as u64),
             GenSpec::random("random", tier.pick(200_000, 4_000_000)),
         ]
@@ -120,6 +122,12 @@ impl Prop for C02 {
                 let (ast, desc) = sweep_case(cx.n, &mut cx.rng, &cfg);
                 self.run_ast(cx, &ast, &desc);
                 cx.sample(|| json!({"sweep": desc}));
+            }
+            "long-strings" => {
+                let (ast, which) = long_string_lib(&mut cx.rng);
+                cx.count(&format!("long_string_in_{}", which));
+                self.run_ast(cx, &ast, "one long non-ASCII string");
+                cx.sample(|| json!({"long_string_field": which}));
             }
             "limits" => {
                 let (desc, ast) = limit_case(cx.n);
